@@ -184,13 +184,15 @@ func registerTie(r *lib.Run) {
 			return tabOffsets()
 		case "fields":
 			return tabFields()
+		case "widths":
+			return tabWidths()
 		}
 		return "badtab"
 	})
 }
 
 func tieCases(r *lib.Run) {
-	for _, w := range []string{"types", "flags", "offsets", "fields"} {
+	for _, w := range []string{"types", "flags", "offsets", "fields", "widths"} {
 		r.Do("tab", w)
 	}
 	for n := 0; n <= 8; n++ {
